@@ -11,7 +11,7 @@ import (
 func init() {
 	props["C08"] = &propCheck{
 		lean: []string{"JSight.Props.C08"},
-		exes: []string{"jsight-model"},
+		exes: []string{"jsight-model", "jsight-ctx"},
 		run:  runC08,
 		rule: "file names: all strings over {.,/,\\,a} up to the length bound + random; non-trivial = contains at least one of . / \\ ; projects: generated documents cut into files (depth, same file twice, several files from one place) and faulty include graphs",
 		assume: []string{
@@ -111,6 +111,7 @@ func runC08(ctx *Ctx) {
 	}
 	ctx.Cov.Sample(map[string]any{"name": "a/../b", "verdict": incErrClass(core.VerifValidateIncludeFileName("a/../b"))})
 	ctx.Cov.Sample(map[string]any{"name": "sub/inc.jst", "verdict": incErrClass(core.VerifValidateIncludeFileName("sub/inc.jst"))})
+	includeCorrespondence(ctx, r, ctx.Budget(3000, 100000))
 	c08Projects(ctx, r)
 }
 
